@@ -884,7 +884,7 @@ class Engine:
                     ty = ty2
                 # the annotated form is "(base.N: T)" -> base.N
                 return self._parse_place_noannot(st, s, frame, ty)
-            m = re.match(r"^(.*) as (\w+)$", inner)
+            m = re.match(r"^(.*) as ([\w#]+)$", inner)
             if m and not inner.startswith("*"):
                 base, _ = self.parse_place(st, m.group(1), frame)
                 return base + (("v", m.group(2)),), None
